@@ -53,7 +53,12 @@ uint64_t PrimeSieve::nthPrime(int64_t n, uint64_t start)
   if (n < 0)
     return negativeNthPrime(n, start);
   else if (n == 0)
-    n = 1; // like Mathematica
+  {
+    // n = 0 finds the 1st prime >= start
+    // i.e. the 1st prime > start - 1.
+    n = 1;
+    start = checkedSub(start, 1);
+  }
   else if ((uint64_t) n > max_n)
     throw primesieve_error("nth_prime(n): n must be <= " + std::to_string(max_n));
 
